@@ -73,7 +73,7 @@ def gen_script_ops(rng, nid, fds, mode):
             ops += [f"pclose {b}", f"closefd {f}", f"openfd {f} {rng.below(4)}", f"pinit {f}",
                     f"pstart {nid + rng.below(2)} {rng.choice(UVMASKS)}"]
             if mode != "S": ops.append(f"peer {rng.choice([1, 1, 3])} {f}")
-        elif r < 14: ops.append(f"dupfd {rng.choice(fds)}")
+        elif r < 14: ops.append(rng.choice([f"dupfd {rng.choice(fds)}", f"pinit {rng.choice(fds)}", f"pinit {rng.choice(fds)}"]))
         elif r < 15: ops.append(f"iofeed {b}")
         else: ops.append(f"peer {rng.range(1, 6)} {rng.choice(fds)}")
     return ops
@@ -147,7 +147,10 @@ def gen_case(rng, nsteps, mode=None, ring=None, bias=None):
         elif r < 17 and live:
             i = rng.choice(live)
             if not hs[i][1]: body.append(f"iofeed {i}")
-        elif r < 18:
+        elif r < 19 and live:
+            # a call libuv itself must refuse without side effects: second uv_poll_init on a watched fd
+            body.append(f"pinit {hs[rng.choice(live)][0]}")
+        elif r < 20:
             f = rng.choice(fds)
             if f not in open_: body.append(f"openfd {f} {rng.below(4)}"); open_.add(f)
             init_on(f)
@@ -185,8 +188,8 @@ def monitor(case, out):
     H = {}           # id -> dict(fd, poll, req, active, closed, linger)
     internal = None
     info = {"cbs": 0, "nontrivial": False, "shape": [], "ebadf": 0, "disarm": 0, "eexist": 0, "inval": 0,
-            "big": 0, "repoll": 0, "blocks": 0}
-    cur_op = None; pend_new = None
+            "big": 0, "repoll": 0, "blocks": 0, "api_errors": 0}
+    cur_op = None; pend_new = None; op_ctl_ok = []; last_ki = None; op_failed = False
     batch = None; batch_real = False; dirty = set(); expected = {}; in_run = False; run_real = False
     fed = set(); last_ready = None
     runs = [c.split()[1] for c in case if c.startswith("run")]
@@ -217,9 +220,17 @@ def monitor(case, out):
             internal = int(l.split("internal=")[1].split()[0]); continue
         if w[0] == "#ready":
             last_ready = (int(w[1]), int(w[2]), int(w[3])); continue
+        if w[0] == "#ki":
+            ki = " ".join(w[1:])
+            if op_failed and last_ki is not None and ki != last_ki:
+                raise Bad("failed-call-modified-interest",
+                          f"`{' '.join(cur_op)}` was refused/failed but the kernel interest list changed: [{last_ki}] -> [{ki}]")
+            last_ki = ki; op_failed = False
+            continue
+        if w[0] == "refused": op_failed = True
         if l.startswith("#"): continue
         if w[0] == "op":
-            cur_op = w[1:]
+            cur_op = w[1:]; op_ctl_ok = []; op_failed = False
             if w[1] == "run":
                 end_dispatch(); in_run = True; nrun += 1
                 run_real = nrun < len(runs) and runs[nrun] == "R"
@@ -237,6 +248,11 @@ def monitor(case, out):
             continue
         if w[0] == "ret" and cur_op:
             r = int(w[1]); o = cur_op[0]
+            if r < 0:
+                info["api_errors"] += 1; op_failed = True
+                if op_ctl_ok:
+                    raise Bad("failed-call-modified-interest",
+                              f"`{' '.join(cur_op)}` returned {r} but changed the kernel interest list: {op_ctl_ok}")
             if o in ("pstart", "pstop", "pclose", "iostart", "iostop", "ioclose", "iofeed") and r == 0:
                 i = int(cur_op[1]); h = H.get(i)
                 if h is None: raise Bad("harness-inconsistent", f"op on unknown id accepted: {cur_op}")
@@ -250,6 +266,7 @@ def monitor(case, out):
                 if o != "iofeed" and i in expected: expected[i] = None
             continue
         if w[0] == "env" and w[1] == "epoll_ctl":
+            if w[-1] == "0": op_ctl_ok.append(" ".join(w[2:5]))
             if w[2] == "DEL" and in_run and batch is not None and w[-1] == "0": info["disarm"] += 1
             if w[-1] == "-17": info["eexist"] += 1
             continue
@@ -431,7 +448,7 @@ def run_cases(ctx, exe, cases, label):
         if not isinstance(r, Bad):
             if r["nontrivial"]:
                 ctx.nontrivial(hashlib.sha1(("|".join(r["shape"]) + "#" + "|".join(l for l in iv if l.startswith("env poll"))).encode()).hexdigest()[:12])
-            for k in ("cbs", "ebadf", "disarm", "eexist", "big", "blocks"):
+            for k in ("cbs", "ebadf", "disarm", "eexist", "big", "blocks", "api_errors"):
                 hist[k] = hist.get(k, 0) + r[k]
             hist["cases_ring" + c[0][-1]] = hist.get("cases_ring" + c[0][-1], 0) + 1
             hist["refused"] = hist.get("refused", 0) + sum(1 for l in iv if l == "refused")
